@@ -58,6 +58,13 @@ impl Iterator for DataIterator {
     }
 }
 
+#[cfg(abasic_verif)]
+impl DataIterator {
+    pub(crate) fn verif_position(&self) -> (usize, usize) {
+        (self.chunk_index, self.chunk_item_index)
+    }
+}
+
 #[derive(Debug, PartialEq, Clone)]
 pub enum DataElement {
     String(Rc<String>),
